@@ -59,8 +59,11 @@ func failingClient(objs []client.Object, fail func(name string) bool, injected *
 // parallel: the three fan-out / fan-in helpers with none / some / all calls failing.
 func streamParallel(r *rand.Rand, i int, tier string) *Case {
 	now := time.Now()
-	n := pick(r, 2, 3, 4, 8, 16, 32, 64)
-	mode := pick(r, "none", "some", "all")
+	n := pick(r, 2, 3, 4, 8, 16, 26, 32, 40, 64, 100)
+	// "one": a single failing call at a random position; "head": failures only among the first third
+	// (whatever batching or early exit a helper might use, a failure anywhere must be reported)
+	mode := pick(r, "none", "some", "all", "one", "head")
+	onePos := r.Intn(n)
 	helper := pick(r, "createPods", "deletePods", "deletePodSlice", "cleanupPods")
 	rs := newERS("foo-a", tplOf(1), now.Add(-time.Hour))
 	failSet := map[string]bool{}
@@ -87,7 +90,8 @@ func streamParallel(r *rand.Rand, i int, tier string) *Case {
 		if helper != "createPods" {
 			objs = append(objs, pod)
 		}
-		fails := mode == "all" || (mode == "some" && r.Intn(2) == 0)
+		fails := mode == "all" || (mode == "some" && r.Intn(2) == 0) || (mode == "one" && k == onePos) ||
+			(mode == "head" && k <= n/3 && r.Intn(2) == 0)
 		if fails {
 			if helper == "createPods" {
 				failSet[node.Name] = true
